@@ -5,8 +5,13 @@
 //              six Dubins words computed by an INDEPENDENT oracle (classical closed-form word lengths in the
 //              normalised (alpha, beta, d) coordinates, long double), segment lengths in range.
 //  BSP lines : fit_bspline<3> span; model num_pts / bs_tmax (Model/C14_Misc.v)
-//  REP lines : reparameterize_spline: backward-pass v2max re-derived with the real lp2d::solve and the real spline,
-//              the forward-pass segments read from the returned Spline<2,double> -> compared with Model/C14_Reparam.v;
+//  LPR lines : reparameterize_spline, backward pass: every call the library makes to lp2d::solve is OBSERVED (the token
+//              lp2d is redirected to a recording wrapper around the real solver while reparameterize.hpp is compiled):
+//              the rows the library built, the point and status the real solver returned.  The rows are compared with
+//              the model's bwd_rows (Model/C14_Reparam.v) evaluated on the spline derivatives and bounds; the solver's
+//              contract (Optimal => rows satisfied) is checked on the library's own rows.
+//  REP lines : v2max as the library computed it (from the observed calls), the forward-pass segments read from the
+//              returned Spline<2,double> -> compared with Model/C14_Reparam.v;
 //              property checks on the returned map s: non-decreasing, s(0)=t_min, s(T)=t_max, continuity at the knots,
 //              s'(0) <= start_vel.
 // usage: h_c14_misc <out-file>
@@ -36,7 +41,34 @@
 #undef private
 #include <smooth/spline/dubins.hpp>
 #include <smooth/spline/fit.hpp>
+
+// ---- observation point inside reparameterize_spline: reparameterize_impl.hpp calls lp2d::solve(-1, 0, ineq) and tests
+// lp2d::Status::...; while that header is compiled the token lp2d names the wrapper below, which forwards to the real
+// solver (already included, #pragma once) and records the call.  Nothing of the library is re-implemented.
+#include <smooth/external/lp2d.hpp>
+namespace lp2d_spy {
+using Status = ::lp2d::Status;
+struct Call
+{
+  std::vector<std::array<double, 3>> rows;
+  double cx, cy, x, y;
+  Status status;
+};
+inline std::vector<Call> calls;
+template<std::ranges::range R>
+inline std::tuple<double, double, Status> solve(double cx, double cy, const R & rows)
+{
+  const auto r = ::lp2d::solve(cx, cy, rows);
+  Call c;
+  for (const auto & row : rows) c.rows.push_back({row[0], row[1], row[2]});
+  c.cx = cx, c.cy = cy, c.x = std::get<0>(r), c.y = std::get<1>(r), c.status = std::get<2>(r);
+  calls.push_back(std::move(c));
+  return r;
+}
+}  // namespace lp2d_spy
+#define lp2d lp2d_spy
 #include <smooth/spline/reparameterize.hpp>
+#undef lp2d
 
 using namespace smooth;
 using hv::ld;
@@ -49,6 +81,13 @@ static std::string num(double v)
   char b[64];
   if (std::isfinite(v)) std::snprintf(b, sizeof b, "%.6g", v);
   else std::snprintf(b, sizeof b, "\"non-finite\"");
+  return b;
+}
+
+static std::string hexs(double v)
+{
+  char b[64];
+  std::snprintf(b, sizeof b, "%a", v);
   return b;
 }
 
@@ -224,22 +263,34 @@ static void reparam_case(int id, const Spl & spline, const Eigen::VectorXd & vmi
   constexpr double eps = 1e-8, inf = std::numeric_limits<double>::infinity();
   ++rep.evaluations;
   ++rep.strata[std::string("reparam/") + stratum];
+  lp2d_spy::calls.clear();
   const auto s = reparameterize_spline(spline, vmin, vmax, amin, amax, start_vel, end_vel, N);
 
-  auto failrec = [&](const char * check, double err, double tol, double where) {
-    char buf[500];
+  auto failrec = [&](const char * check, double err, double tol, double where, const std::string & extra = "") {
+    char buf[700];
     std::snprintf(buf, sizeof buf,
       "{\"check\":\"%s\",\"case\":%d,\"stratum\":\"%s\",\"N\":%zu,\"start_vel\":%.6g,\"end_vel\":%s,\"t_min\":%.6g,\"t_max\":%.6g,"
-      "\"amax_min\":%.6g,\"vmax_min\":%.6g,\"at\":%.9g,\"err\":%s,\"tol\":%.3e}",
+      "\"amax_min\":%.6g,\"vmax_min\":%.6g,\"at\":%.9g,\"err\":%s,\"tol\":%.3e%s}",
       check, id, stratum, N, start_vel, num(end_vel).c_str(), spline.t_min(), spline.t_max(), amax.minCoeff(), vmax.minCoeff(), where,
-      num(err).c_str(), tol);
+      num(err).c_str(), tol, extra.c_str());
     rep.fail(buf, check, amax.minCoeff());
   };
 
-  // ---- re-derive v2max exactly as reparameterize_impl.hpp:41-113 does, with the real spline and the real lp2d
+  // ---- the backward pass as the library executed it: one observed lp2d::solve call per grid point, i = N-1 .. 0
   const double s0 = spline.t_min(), sf = spline.t_max();
   const double ds = (sf - s0) / static_cast<double>(N);
-  std::vector<double> v2max(N + 1, std::numeric_limits<double>::quiet_NaN());
+  const double nan = std::numeric_limits<double>::quiet_NaN();
+  std::vector<double> v2max(N + 1, nan);
+  const auto & calls = lp2d_spy::calls;
+  if (calls.size() != N) {
+    char buf[300];
+    std::snprintf(buf, sizeof buf, "{\"check\":\"reparam_lp_calls\",\"case\":%d,\"stratum\":\"%s\",\"N\":%zu,\"observed_calls\":%zu}", id, stratum, N,
+                  calls.size());
+    rep.fail(buf, "reparam_lp_calls", 0);
+    return;
+  }
+  // v2max(N) (reparameterize_impl.hpp:47-65) is the right-hand side of row [1] of the first call; it is ALSO recomputed
+  // here from the spline and the bounds (the only re-derivation left) and must agree
   {
     double ret = end_vel * end_vel;
     Tangent<G> vel, acc;
@@ -256,58 +307,64 @@ static void reparam_case(int id, const Spl & spline, const Eigen::VectorXd & vmi
     v2max[N] = ret;
   }
   bool lp_contract_ok = true, lp_tiny = false;
-  for (std::size_t ii = N; ii-- > 0;) {
-    const double si = s0 + ds * ii;
+  std::vector<char> lp_bad(N + 1, 0);  // grid points whose LP call returned Optimal with a point violating its rows
+  for (std::size_t c = 0; c < N; ++c) {
+    const std::size_t ii = N - 1 - c;
+    const auto & call    = calls[c];
     Tangent<G> vel, acc;
-    spline(si, vel, acc);
-#ifdef C14_REPARAM_LP_NONNEG
-    // after notes/C14-reparam-lp-nonneg.patch the backward LP has the extra row  y + 2 ds a >= 0
-    std::array<std::array<double, 3>, 2 + 3 * dof> ineq;
-    ineq[1 + 3 * dof] = {-1, -2 * ds, 0};
-#else
-    std::array<std::array<double, 3>, 1 + 3 * dof> ineq;
-#endif
-    ineq[0] = {1, 2 * ds, v2max[ii + 1]};
-    for (int j = 0; j < dof; ++j) {
-      if (vel(j) > eps) ineq[1 + j] = {vel(j) * vel(j), 0, vmax(j) * vmax(j)};
-      else if (vel(j) < -eps) ineq[1 + j] = {vel(j) * vel(j), 0, vmin(j) * vmin(j)};
-      else ineq[1 + j].fill(0);
+    spline(s0 + ds * ii, vel, acc);
+    // LPR line: inputs of the model's bwd_rows + the rows the library really handed to lp2d + what lp2d returned.
+    // ynext is v2max(i+1) as defined by the PREVIOUS observed call (:112-116), not row [1]'s own right-hand side, so
+    // that the comparison also covers the assignment of v2max.
+    std::fprintf(out, "LPR %d %zu %a %s %d", id, ii, ds, std::isinf(v2max[ii + 1]) ? "inf" : std::isnan(v2max[ii + 1]) ? "nan" : hexs(v2max[ii + 1]).c_str(), dof);
+    for (int j = 0; j < dof; ++j) std::fprintf(out, " %a %a", vel(j), acc(j));
+    for (int j = 0; j < dof; ++j) std::fprintf(out, " %a", vmin(j));
+    for (int j = 0; j < dof; ++j) std::fprintf(out, " %a", vmax(j));
+    for (int j = 0; j < dof; ++j) std::fprintf(out, " %a", amin(j));
+    for (int j = 0; j < dof; ++j) std::fprintf(out, " %a", amax(j));
+    std::fprintf(out, " ROWS %zu", call.rows.size());
+    for (const auto & r : call.rows) {
+      for (int k = 0; k < 3; ++k) {
+        if (std::isinf(r[k])) std::fprintf(out, r[k] > 0 ? " inf" : " -inf");
+        else std::fprintf(out, " %a", r[k]);
+      }
     }
-    for (int j = 0; j < dof; ++j) {
-      ineq[1 + dof + j]     = {acc(j), vel(j), amax(j)};
-      ineq[1 + 2 * dof + j] = {-acc(j), -vel(j), -amin(j)};
-    }
-    const auto [v2opt, aopt, status] = lp2d::solve(-1, 0, ineq);
-    if (status == lp2d::Status::Optimal) {
-      v2max[ii] = v2opt;
-      // run-time check of the external solver's contract: optimal => feasible
-      for (auto & r : ineq) {
-        const double lhs = r[0] * v2opt + r[1] * aopt;
-        const double scl = std::abs(r[0] * v2opt) + std::abs(r[1] * aopt) + std::abs(r[2]) + 1e-300;
+    std::fprintf(out, " OBJ %a %a SOL %d %a %a\n", call.cx, call.cy,
+                 call.status == lp2d::Status::Optimal ? 0 : call.status == lp2d::Status::PrimaryInfeasible ? 1 : 2,
+                 std::isfinite(call.x) ? call.x : 0.0, std::isfinite(call.y) ? call.y : 0.0);
+    ++rep.strata["reparam/lp2d calls observed"];
+    if (call.status == lp2d::Status::Optimal) {
+      v2max[ii] = call.x;
+      // run-time check of the external solver's contract on the library's own rows: optimal => feasible
+      for (const auto & r : call.rows) {
+        const double lhs = r[0] * call.x + r[1] * call.y;
+        const double scl = std::abs(r[0] * call.x) + std::abs(r[1] * call.y) + std::abs(r[2]) + 1e-300;
         if (std::isfinite(r[2]) && !(lhs <= r[2] + 1e-7 * scl)) {
           lp_contract_ok = false;
-          for (auto & q : ineq) {
+          lp_bad[ii]     = 1;
+          for (const auto & q : call.rows) {
             const double m = std::max(std::abs(q[0]), std::abs(q[1]));
             for (int c2 = 0; c2 < 2; ++c2)
               if (q[c2] != 0 && std::abs(q[c2]) < 1e-12 * m) lp_tiny = true;
           }
           if (std::getenv("C14_DEBUG")) {
-            std::fprintf(stderr, "lp2d case %d i=%zu row (%g %g %g) y=%g a=%g lhs=%g ALLROWS", id, ii, r[0], r[1], r[2], v2opt, aopt, lhs);
-            for (auto & q : ineq) std::fprintf(stderr, " {%.17g,%.17g,%.17g},", q[0], q[1], q[2]);
+            std::fprintf(stderr, "lp2d case %d i=%zu row (%g %g %g) y=%g a=%g lhs=%g ALLROWS", id, ii, r[0], r[1], r[2], call.x, call.y, lhs);
+            for (const auto & q : call.rows) std::fprintf(stderr, " {%.17g,%.17g,%.17g},", q[0], q[1], q[2]);
             std::fprintf(stderr, "\n");
           }
         }
       }
-    } else if (status == lp2d::Status::DualInfeasible) {
+    } else if (call.status == lp2d::Status::DualInfeasible) {
       v2max[ii] = inf;
-    }
+    }  // PrimaryInfeasible: the library leaves v2max(i) unassigned (:112-116); recorded as NaN, the case gets no REP line
   }
   rep.tally("lp2d_optimal_is_feasible", lp_contract_ok ? 0 : 1);
   if (!lp_contract_ok) {
     char buf[400];
     std::snprintf(buf, sizeof buf,
-      "{\"check\":\"lp2d_contract\",\"case\":%d,\"stratum\":\"%s\",\"N\":%zu,\"tiny_coeff\":%s,\"t_max\":%.6g,\"vmax_min\":%.6g,\"amax_min\":%.6g}", id,
-      stratum, N, lp_tiny ? "true" : "false", spline.t_max(), vmax.minCoeff(), amax.minCoeff());
+      "{\"check\":\"lp2d_contract\",\"case\":%d,\"stratum\":\"%s\",\"N\":%zu,\"tiny_coeff\":%s,\"t_max\":%.6g,\"vmax_min\":%.6g,\"amax_min\":%.6g,"
+      "\"lp2d_infeasible_optimum_observed\":true,\"grid_points_affected\":%d}", id,
+      stratum, N, lp_tiny ? "true" : "false", spline.t_max(), vmax.minCoeff(), amax.minCoeff(), (int)std::count(lp_bad.begin(), lp_bad.end(), 1));
     rep.fail(buf, std::string("lp2d_contract/") + (lp_tiny ? "tiny_coeff" : "other"), amax.minCoeff());
   }
 
@@ -372,6 +429,7 @@ static void reparam_case(int id, const Spl & spline, const Eigen::VectorXd & vmi
   // monotone: inside every segment (coefficients) and across knots (left limit <= right start), plus API sampling
   double worst_dec = 0, where = 0, worst_jump = 0, jwhere = 0;
   bool jump_clamped = false;
+  long jump_grid    = -1;  // grid index i of the segment that ends at the worst jump (its g0 = s0 + ds * i)
   double tp = 0;
   for (std::size_t k = 0; k < s.m_end_t.size(); ++k) {
     const double g0 = k == 0 ? s.m_g0 : s.m_end_g[k - 1];
@@ -387,9 +445,10 @@ static void reparam_case(int id, const Spl & spline, const Eigen::VectorXd & vmi
     if (endv - nxt > worst_dec) worst_dec = endv - nxt, where = s.m_end_t[k];
     if (std::abs(endv - nxt) > worst_jump) {
       worst_jump = std::abs(endv - nxt), jwhere = s.m_end_t[k];
-      // end speed of the segment = 2 v2 / dt; the eps clamp of reparameterize_impl.hpp:149/:159 leaves it at sqrt(1e-8)
+      // end speed of the segment = 2 v2 / dt; the eps clamp of reparameterize_impl.hpp:153/:163 leaves it at sqrt(1e-8)
       const double vend = 2 * v2 / (s.m_end_t[k] - tp);
       jump_clamped      = std::abs(vend - 1e-4) < 1e-6;
+      jump_grid         = std::lround((g0 - s0) / ds);
     }
     tp = s.m_end_t[k];
   }
@@ -403,7 +462,15 @@ static void reparam_case(int id, const Spl & spline, const Eigen::VectorXd & vmi
   rep.tally("reparam_max_decrease", worst_dec / rng);
   if (!(worst_dec <= 1e-7 * rng)) failrec("reparam_monotone", worst_dec / rng, 1e-7, where);
   rep.tally("reparam_max_knot_jump", worst_jump / rng);
-  if (!(worst_jump <= 1e-6 * rng)) failrec(jump_clamped ? "reparam_continuity_eps_clamp" : "reparam_continuity", worst_jump / rng, 1e-6, jwhere);
+  if (!(worst_jump <= 1e-6 * rng)) {
+    // Theorem reparam_lp_row4_radicand_nonneg: a braking step can only be clamped from a NEGATIVE radicand when the point
+    // lp2d returned for this very grid point violates the rows it was given (or row [4] is missing from the program).
+    // Record whether that was observed, so that a gap with a contract-abiding solver is never attributed to lp2d.
+    const bool lp_obs = jump_grid >= 0 && jump_grid < (long)N && lp_bad[(std::size_t)jump_grid];
+    char ex[160];
+    std::snprintf(ex, sizeof ex, ",\"grid_point\":%ld,\"lp2d_infeasible_optimum_observed\":%s", jump_grid, lp_obs ? "true" : "false");
+    failrec(jump_clamped ? "reparam_continuity_eps_clamp" : "reparam_continuity", worst_jump / rng, 1e-6, jwhere, ex);
+  }
   if (rep.samples.size() < 5) {
     char buf[300];
     std::snprintf(buf, sizeof buf, "{\"harness\":\"reparam\",\"stratum\":\"%s\",\"N\":%zu,\"t_min\":%.6g,\"t_max\":%.6g,\"start_vel\":%.6g,\"T\":%.6g}", stratum,
@@ -457,7 +524,7 @@ int main(int argc, char ** argv)
     dubins_case<3>(id++, 0, 0, 0, 1, "degenerate");
     dubins_case<3>(id++, 5, 0, 0, 1, "degenerate");
     dubins_case<3>(id++, -5, 0, 0, 1, "degenerate");
-    // other spline degrees (Spline::ConstantVelocity uses T/3 for every K: owned by C12, visible here)
+    // other spline degrees (Spline::ConstantVelocity must scale by T/K: C12's finding, fixed by 8514426; regression here)
     for (int k = 0; k < 6; ++k) {
       const double r = rng.logu(0.5, 10), phi = 2 * M_PI * rng.uni(), th = M_PI * rng.sym();
       dubins_case<2>(id++, r * std::cos(phi), r * std::sin(phi), th, 1.0, "random");
@@ -478,11 +545,11 @@ int main(int argc, char ** argv)
       for (int i = 0; i < n; ++i) gs[i] = std::sin(0.3 * ts[i]) + 0.1 * rng.sym();
       ++rep.evaluations;
       {
-        // NumPts (fit_impl.hpp:320, read from the library) and istar (:330, same expression in binary64): every data point
+        // NumPts (fit_impl.hpp:322, read from the library) and istar (:333, same expression in binary64): every data point
         // needs control points istar .. istar+K.  When they do not exist the library asserts (debug) or reads past
         // the control-point vector (NDEBUG); record the input instead of executing undefined behaviour.
         const double t0 = ts.front(), t1 = ts.back();
-        // NumPts as the library itself computes it (public member of the objective fit_bspline builds, fit_impl.hpp:320)
+        // NumPts as the library itself computes it (public member of the objective fit_bspline builds, fit_impl.hpp:322)
         const long numpts = static_cast<long>(detail::fit_bspline_objective<3, std::vector<double> &, std::vector<double> &>(ts, gs, dt).NumPts);
         long worst        = -1;
         for (double t : ts) worst = std::max(worst, static_cast<long>((t - t0) / dt) + 3 + 1);
@@ -509,6 +576,50 @@ int main(int argc, char ** argv)
         std::snprintf(buf, sizeof buf, "{\"check\":\"bspline_span\",\"case\":%d,\"t0\":%.17g,\"t1\":%.17g,\"dt\":%.17g,\"t_min\":%.17g,\"t_max\":%.17g}", id,
                       ts.front(), ts.back(), dt, bs.t_min(), bs.t_max());
         rep.fail(buf, "bspline_span", dt);
+      }
+      ++id;
+    }
+  }
+
+  // ------------------------------------------------------------------ fit_bspline: control-point index arithmetic only
+  // Dense stream on the region where binary64 rounding decides (span an exact or near multiple of dt): NumPts as the
+  // library computes it (fit_impl.hpp:322, read from the objective fit_bspline builds) against the library's istar
+  // expression (:333) for every data time.  No optimisation is run, so thousands of cases are cheap.
+  {
+    const int na = big ? 40000 : 6000;
+    static const double nice_dt[] = {0.1, 0.01, 0.05, 0.2, 0.3, 0.7, 1e-3, 1.0 / 3, 0.25, 1.1, 2.5, 0.15};
+    for (int c = 0; c < na; ++c) {
+      const int n     = 2 + rng.below(40);
+      const double dt = rng.below(2) ? nice_dt[rng.below(12)] : rng.logu(1e-3, 1e1);
+      const int kind  = rng.below(3);
+      std::vector<double> ts(n), gs(n, 0.0);
+      ts[0] = rng.below(2) ? 0.0 : (rng.below(2) ? 10 * rng.sym() : std::floor(100 * rng.sym()) * dt);
+      int kacc = 0;
+      for (int i = 1; i < n; ++i) {
+        const int step = 1 + rng.below(3);
+        kacc += step;
+        if (kind == 0) ts[i] = ts[i - 1] + dt * step;          // accumulated sums of multiples of dt
+        else if (kind == 1) ts[i] = ts[0] + kacc * dt;         // t0 + k*dt rounded once
+        else ts[i] = ts[i - 1] + dt * step * (1 + (rng.below(2) ? 1 : -1) * rng.logu(1e-17, 1e-13));  // within ulps of a multiple
+      }
+      ++rep.evaluations;
+      ++rep.strata["bspline/index arithmetic (span ~ multiple of dt)"];
+      const double t0 = ts.front();
+      const long numpts = static_cast<long>(detail::fit_bspline_objective<3, std::vector<double> &, std::vector<double> &>(ts, gs, dt).NumPts);
+      long worst        = -1;
+      double tw         = t0;
+      for (double t : ts) {
+        const long need = static_cast<long>((t - t0) / dt) + 3 + 1;
+        if (need > worst) worst = need, tw = t;
+      }
+      rep.tally("bspline_ctrl_index_excess", std::max(0L, worst - numpts));
+      if (worst > numpts) {
+        char buf[400];
+        std::snprintf(buf, sizeof buf,
+          "{\"check\":\"bspline_ctrl_index\",\"case\":%d,\"stratum\":\"index arithmetic\",\"t0\":%.17g,\"t1\":%.17g,\"dt\":%.17g,\"t\":%.17g,\"num_pts\":%ld,"
+          "\"needed\":%ld,\"span_multiple_of_dt\":true}",
+          id, t0, ts.back(), dt, tw, numpts, worst);
+        rep.fail(buf, "bspline_ctrl_index", dt);
       }
       ++id;
     }
